@@ -27,6 +27,7 @@ from collections import Counter
 # ------------------------------------------------------------------------------------------ pools
 SEG1 = ["A", "B", "C", "10", "s.1", "x_y"]
 SEG2 = ["A", "B", "C", "10", "s.1", "x_y"]
+TAGLIKE_NAMES = ["sc:1:7", "ch:X:100", "ab:Z:x", "x1:i:5"]
 PATHS = ["p1", "p2", "pth"]
 LINKIDS = ["l1", "l2", "l3", "l4", "l5", "l6", "l7", "l8"]
 EIDS = ["e1", "e2", "e3", "e4", "e5", "e6", "e7", "e8"]
@@ -212,6 +213,10 @@ def gen_gfa1(rng, max_lines, o):
     names = list(SEG1)
     rng.shuffle(names)
     names = names[:nseg]
+    if o.get("taglike") and names and rng.random() < o["taglike"]:
+        # a legal segment name that looks like a tag
+        names[0] = rng.choice(TAGLIKE_NAMES)
+        feats.append("taglike-name")
     length = {}
     seg_lines = []
     for n in names:
@@ -495,6 +500,9 @@ def gen_gfa2(rng, max_lines, o):
     names = list(SEG2)
     rng.shuffle(names)
     names = names[:nseg]
+    if o.get("taglike") and names and rng.random() < o["taglike"]:
+        names[0] = rng.choice(TAGLIKE_NAMES)
+        feats.append("taglike-name")
     slen = {}
     seg_lines = []
     for n in names:
